@@ -52,7 +52,7 @@ class DataDirEngine(Engine):
     def gen(self, rng, i, tier):
         ragged = rng.random() < 0.45
         create = {'op': 'create', 'ragged': ragged, 'meta': rng.random() < 0.5, 'mode': rng.choice(['r', 'r+']),
-                  'sub': rng.random() < 0.6}
+                  'sub': rng.random() < 0.6, 'relative': rng.random() < 0.35}
         ops = [create] + [self.gen_op(rng, ragged) for _ in range(rng.randint(3, 14))]
         return {'engine': 'DataDirEngine', 'prop': 'C20', 'ops': ops}
 
@@ -68,7 +68,7 @@ class DataDirEngine(Engine):
                         c['ops'][i][key] = val
                         yield c
             if op['op'] == 'create':
-                for key, val in (('ragged', False), ('meta', False), ('sub', False)):
+                for key, val in (('ragged', False), ('meta', False), ('sub', False), ('relative', False)):
                     if op[key] != val:
                         c = copy.deepcopy(sc)
                         c['ops'][i][key] = val
@@ -156,10 +156,16 @@ class _DState:
         if k == 'create':
             os.makedirs(self.parent)
             md = {'fs': 2} if op['meta'] else None
+            cpath = self.path
+            if op.get('relative'):
+                # the array is created and held through a relative path (cwd = its parent directory)
+                os.chdir(self.parent)
+                cpath = self.dirname
+                self.probe('array_opened_by_relative_path')
             if op['ragged']:
-                h = self.darr.asraggedarray(self.path, [np.arange(3.), np.arange(2.)], metadata=md, accessmode=op['mode'])
+                h = self.darr.asraggedarray(cpath, [np.arange(3.), np.arange(2.)], metadata=md, accessmode=op['mode'])
             else:
-                h = self.darr.asarray(self.path, np.arange(6, dtype='<i4'), metadata=md, accessmode=op['mode'])
+                h = self.darr.asarray(cpath, np.arange(6, dtype='<i4'), metadata=md, accessmode=op['mode'])
             self.h = h
             self.dd = h.datadir
             self.ragged = op['ragged']
